@@ -44,14 +44,28 @@ package identity
 //@   ensures err == nil ==> vHasRec(vs)[str(validator.Address)] && vRec(vs)[str(validator.Address)] == validator
 //@   ensures err != nil ==> vHasRec(vs)[str(validator.Address)] == old(vHasRec(vs)[str(validator.Address)]) && vRec(vs)[str(validator.Address)] == old(vRec(vs)[str(validator.Address)])
 
-//@ assume func (*ValidatorStore).GetLastPurgeHeight
+// The two accessors of the last-purge-height record are VERIFIED at the raw layer (`claims`: checked on the body, not handed
+// to callers): the record of validator v lives under the key prefixPurge ++ v of the store's State, a successful write leaves
+// exactly the serialised height there and writes nothing else, a failed one writes nothing, a read decodes what is visible
+// under that key. TRUSTED (per clause): the identification of the typed ledger purgeH(vs)[v] with that raw record.
+//@ ghost func purgeKey(vs *ValidatorStore, v bytes) string = str(vs.prefixPurge) + str(v)
+//@ func (*ValidatorStore).GetLastPurgeHeight
+//@   assumes vs != nil && vs.store != nil && wfState(vs.store)
 //@   modifies nothing
-//@   ensures err == nil ==> height == purgeH(vs)[str(validator)]                                 // C10.purge-height
+//@   trustframe
+//@   trusts err == nil ==> height == purgeH(vs)[str(validator)]                                 // C10.purge-height
+//@   claims err == nil && !old(exhausted(vs.store.cache)) && vHas(vs.store)[purgeKey(vs, validator)] && len(vVal(vs.store)[purgeKey(vs, validator)]) != 0 ==> height == deser(vVal(vs.store)[purgeKey(vs, validator)], "int64")   // C10.purge-record
 
-//@ assume func (*ValidatorStore).SetLastPurgeHeight
+//@ func (*ValidatorStore).SetLastPurgeHeight
+//@   assumes vs != nil && vs.store != nil && wfState(vs.store)
+//@   assumes !tomb(ser(height, "int64"))                                                          // A-NOTOMB a serialised record is never the deletion marker
 //@   modifies purgeH(vs)[str(validator)], vHas(vs.store), vVal(vs.store)
-//@   ensures err == nil ==> purgeH(vs)[str(validator)] == height                                 // C10.purge-height
-//@   ensures err != nil ==> purgeH(vs)[str(validator)] == old(purgeH(vs)[str(validator)])        // C10.purge-height
+//@   trustframe
+//@   trusts err == nil ==> purgeH(vs)[str(validator)] == height                                 // C10.purge-height
+//@   trusts err != nil ==> purgeH(vs)[str(validator)] == old(purgeH(vs)[str(validator)])        // C10.purge-height
+//@   claims err == nil ==> vHas(vs.store)[purgeKey(vs, validator)] && vVal(vs.store)[purgeKey(vs, validator)] == ser(height, "int64")   // C10.purge-record
+//@   claims err == nil ==> forall k string :: k != purgeKey(vs, validator) ==> vHas(vs.store)[k] == old(vHas(vs.store))[k] && vVal(vs.store)[k] == old(vVal(vs.store))[k]   // C10.purge-record
+//@   claims err != nil ==> vHas(vs.store) == old(vHas(vs.store)) && vVal(vs.store) == old(vVal(vs.store))   // C10.purge-record
 
 // ---------------------------------------------------------------- stake / unstake bookkeeping
 
@@ -350,3 +364,13 @@ package identity
 //@   calleetrusts (*EvidenceStore).SetValidatorStatus :: isActive ==> activeVal(es, addr)                // A-SER-NOFAIL
 //@   invariant loop1: vs.prefix == old(vs.prefix) && vs.store == old(vs.store) && vs.store.cs == old(vs.store.cs) && ctx.EvidenceStore == old(ctx.EvidenceStore) && arr(vs.queue.PriorityQueue) == old(arr(vs.queue.PriorityQueue)) && height == req.Height   // C10.purge-complete
 //@   invariant loop1: forall a string :: { addrStr(a) } qPopped(arr(vs.queue.PriorityQueue))[a] && !old(qPopped(arr(vs.queue.PriorityQueue)))[a] && recOKAt(verVal(vs.store.cs)[wrap64(req.Height - 1)], vs.prefix, a) && addrOfStr(addrStr(a)) == a ==> has(nonTopValidators, addrStr(a)) || activeVal(ctx.EvidenceStore, bytes(a))   // C10.purge-complete
+
+// ---------------------------------------------------------------- the election queue is COMPLETE (C10)
+// "Converges to exactly that election" needs every recorded candidate to be put up for election or removal: a record that
+// never enters the queue is never issued an update, so a validator whose record is skipped (zero power, say) keeps its old
+// voting power in Tendermint's set for ever. Verified on the callback InitValidatorQueue hands to Iterate: for the address it
+// is given, if the previous block's record exists and decodes, the callback has pushed a (newly allocated) item for that
+// address (itemOfVal is the ghost "item recorded for a value" that Push maintains).
+//@ func (*ValidatorStore).InitValidatorQueue$1
+//@   requires vs != nil && vs.store != nil
+//@   ensures recOKAt(verVal(old(vs.store.cs))[wrap64(old(vs.lastHeight) - 1)], old(vs.prefix), str(addr)) ==> fresh(itemOfVal(as(0, "*utils.Queued"))[str(addr)]) && str(as(itemOfVal(as(0, "*utils.Queued"))[str(addr)], "*utils.Queued").value) == str(addr)   // C10.queue-complete
